@@ -917,7 +917,7 @@ def gen_group_directed(rng):
     check = ["int 1000", "<="] if fld == "Fee" else ["global ZeroAddress", "=="]
     lines, tl, progs = [], [], []
     for k in range(ntx):
-        kind = rng.choice(["trivial", "trivial", "self", "rel", "rel", "abs", "random"])
+        kind = rng.choice(["trivial", "trivial", "self", "rel", "rel", "abs", "random", "self-sub", "rel-sub", "abs-sub"])
         others = [o for o in range(ntx) if o != k]
         o = rng.choice(others)
         rel = []
@@ -932,6 +932,18 @@ def gen_group_directed(rng):
                 rel.append(f"{off}={ids[o]}")
         elif kind == "abs":
             prog = ["#pragma version 6", f"gtxn {pos[o]} {fld}"] + check + ["assert", "int 1", "return"]
+        elif kind in ("self-sub", "rel-sub", "abs-sub"):
+            # the check sits on the main exit, but a subroutine entered when Amount == 5 approves without any check
+            if kind == "self-sub":
+                read = [f"txn {fld}"]
+            elif kind == "rel-sub":
+                off = pos[o] - pos[k]
+                read = ["txn GroupIndex", f"int {abs(off)}", "+" if off >= 0 else "-", f"gtxns {fld}"]
+                if rng.random() < 0.85:
+                    rel.append(f"{off}={ids[o]}")
+            else:
+                read = [f"gtxn {pos[o]} {fld}"]
+            prog = ["#pragma version 6", "txn Amount", "int 5", "==", "bz checked", "callsub approve", "err", "checked:"] + read + check + ["assert", "int 1", "return", "approve:", "int 1", "return"]
         else:
             prog = gen.random_program(rng, kf_free=True)[0].split("\n")
         for o2 in others:
@@ -973,7 +985,10 @@ def group_semantics_oracle(meta, verdict):
         parsed = [avm.Program(t) for t in progs]
     except Exception:  # pylint: disable=broad-except
         return out
-    for mask in itertools.product([False, True], repeat=len(pos)):
+    amounts = [tuple(0 for _ in pos)]
+    if any("txn Amount" in t for t in progs):
+        amounts = list(itertools.product([0, 5], repeat=len(pos)))
+    for mask, amt in itertools.product(itertools.product([False, True], repeat=len(pos)), amounts):
         if not any(mask):
             continue
         group = []
@@ -986,6 +1001,7 @@ def group_semantics_oracle(meta, verdict):
         for k, dangerous in enumerate(mask):
             if dangerous:
                 group[pos[k]][fld] = 272001 if fld == "Fee" else ("addr", "FRESHADDR")
+            group[pos[k]]["Amount"] = amt[k]
         ok = True
         for k, prog in enumerate(parsed):
             try:
@@ -1393,6 +1409,19 @@ def rewrite_program(rng, text, kind):
             else:
                 out.append(l)
         return "\n".join(out), "same"
+    if kind == "beforelabel":
+        # padding or an extra unused label directly before a label: separates a branch from a label on the next line;
+        # block numbering changes, so only the verdicts are compared
+        out, k = [], 0
+        for l in lines:
+            t = l.split()
+            # (a label directly after a callsub is the shape of known finding D3: separating the two removes the defect, so
+            #  the verdict legitimately changes there -- left to the D3 replay)
+            if len(t) == 1 and t[0].endswith(":") and out and not out[-1].startswith("#pragma") and not out[-1].split()[:1] == ["callsub"] and rng.random() < 0.6:
+                k += 1
+                out += rng.choice([["int 0", "pop"], [f"unused_lbl_{k}:"], ['byte "p"', "pop"]])
+            out.append(l)
+        return "\n".join(out), None
     if kind == "padding":
         out, mp = [], {}
         for n, l in enumerate(lines, 1):
@@ -1417,10 +1446,10 @@ def run_c15(ctx):
     rng = ctx["rng"]
     n = 80 if ctx["tier"] == "quick" else 800
     reqs, meta = [], {}
-    for k in range(n):
-        t, _ = gen.random_program(rng)
+    srcs = [gen.random_program(rng)[0] for _ in range(n)] + [t for _, t in gen.adversarial_programs()]
+    for k, t in enumerate(srcs):
         reqs.append(("analyze", f"o{k}", t, []))
-        for kind in ("labels", "comments", "ints", "padding"):
+        for kind in ("labels", "comments", "ints", "padding", "beforelabel"):
             t2, mp = rewrite_program(rng, t, kind)
             reqs.append(("analyze", f"r{k}_{kind}", t2, []))
             meta[f"r{k}_{kind}"] = (f"o{k}", kind, t, t2)
@@ -1435,6 +1464,17 @@ def run_c15(ctx):
                     ctx["violations"].append((f"rewrite '{kind}' changes whether the {side} completes", {"kind": "rewrite-variance", "program": t, "rewritten": t2, "rewrite": kind}))
                 continue
             ncmp += 1
+            if kind == "beforelabel":
+                va = {d: bool(p) for d, p in a["paths"].items() if isinstance(p, list)}
+                vb = {d: bool(p) for d, p in b["paths"].items() if isinstance(p, list)}
+                if va != vb:
+                    dd = sorted(d for d in va if va.get(d) != vb.get(d))
+                    if side == "implementation":
+                        ctx["violations"].append((f"padding / an unused label inserted before a label changes the verdict of {dd}", {"kind": "rewrite-variance", "program": t, "rewritten": t2, "rewrite": kind}))
+                    else:
+                        ctx["broken"].append(f"model is not invariant under rewrite '{kind}' (verdicts {dd}) on {t!r}")
+                    break
+                continue
             if a["ctx"] != b["ctx"] or a["paths"] != b["paths"]:
                 what = "contexts" if a["ctx"] != b["ctx"] else "reported paths"
                 if side == "implementation":
@@ -1449,8 +1489,8 @@ def run_c15(ctx):
                 ctx["broken"].append(f"correspondence model/implementation on rewritten program: {d[0][:200]} || {t2!r}")
     cov["traces_validated_against_impl"] = ncmp
     cov["evaluations"] = ncmp
-    cov["distinct_nontrivial"] = n
-    cov["rule"] = "random programs x rewrites (label renaming; comments/blank lines/indentation; decimal/hex/octal + int/pushint + named/numeric constants; stack-neutral padding): contexts per block and ordered paths of original vs rewritten program must be identical (block ids are preserved by these rewrites), on the implementation and on the model"
+    cov["distinct_nontrivial"] = len(srcs)
+    cov["rule"] = "random + adversarial programs x rewrites (padding or an unused label before a label: verdicts compared; label renaming; comments/blank lines/indentation; decimal/hex/octal + int/pushint + named/numeric constants; stack-neutral padding): contexts per block and ordered paths of original vs rewritten program must be identical (block ids are preserved by these rewrites), on the implementation and on the model"
     cov["disagreements"] = nd
 
 
